@@ -99,6 +99,8 @@ def showSent (l : List Nat) : String :=
 def step (s : S) (ts : List String) : S × List String :=
   match ts with
   | ["world", as, rid] => ({ g := ⟨nat! as, nat! rid⟩ }, [])
+  | ["lockarg", site, sends, write] =>
+    (s, ["lockarg " ++ site ++ (if lockOk (b! sends) (b! write) then " atomic" else " races-fanout")])
   | ["opts", a, b, c] => ({ s with opts := ⟨b! a, b! b, b! c⟩ }, [])
   | ["peer", idx, kind, as, rid, addr, sendMax, apRx, allowOwn] =>
     let cfg : PeerCfg := { idx := nat! idx, kind := kindOf kind, as := nat! as, rid := nat! rid, addr := nat! addr,
